@@ -242,14 +242,14 @@ Definition mem_pair (a : string * string) (l : list (string * string)) : bool :=
 (** TRUSTED ANNOTATION (the table does not record call arguments):
     [LinearState.rem] and [LinearState.search] take a [lock bool] parameter and
     lock only [if lock]; these (caller, callee) call sites pass [false]
-    ([s.rem(ctx, id, false)] in expire and deleteDependencies,
+    ([s.rem(ctx, id, false)] in purge and deleteDependencies,
     [s.search(ctx, pattern, false)] in deleteDependencies).  At these call
     sites the callee's lock events are dropped when it is inlined.  (Without
     the annotation the inlined trace would re-acquire the non-reentrant
     RWMutex while holding it; [no_relock] below checks that, with it, no
-    method ever does.) *)
+    method ever does.)  Since the repair of D52 [expire] calls nothing. *)
 Definition calls_without_lock : list (string * string) :=
-  [("LinearState.expire", "rem"); ("LinearState.deleteDependencies", "rem");
+  [("LinearState.purge", "rem"); ("LinearState.deleteDependencies", "rem");
    ("LinearState.deleteDependencies", "search")].
 
 (** one entry of an inlined trace: the lock modes held when the event happens
@@ -260,36 +260,57 @@ Definition te_in (t : tentry) : string := fst (snd t).
 Definition te_ev (t : tentry) : string := snd (snd t).
 
 (** Walk a method body with the stack of held locks: [lock:m] pushes [m],
-    [unlock:*] pops, [defer-unlock:*] pops when the method returns; [call:m]
-    of a method of the same type is inlined (fuelled) in the caller's lock
-    context; a call of anything else (a hook field) is an event.  Returns the
-    trace and the locks held on return. *)
+    [unlock:*] pops; [defer-unlock:*] and [defer-call:m] are stacked and run,
+    last registered first, when the method returns (a deferred unlock pops, a
+    deferred call of a method of the same type is inlined there); [call:m] of a
+    method of the same type is inlined (fuelled) in the caller's lock context;
+    a call of anything else (a hook field) is an event.  Returns the trace and
+    the locks held on return. *)
 Fixpoint trace (fuel : nat) (ty cur : string) (held : list string) (evs : list string) {struct fuel}
   : list tentry * list string :=
   match fuel with
   | O => ([], held)
   | S f =>
-      (fix go (evs : list string) (held : list string) (deferred : nat) {struct evs} : list tentry * list string :=
+      let inline (callee : string) (held : list string) : option (list tentry * list string) :=
+        match tlookup (String.append ty (String.append "." callee)) lock_table with
+        | None => None
+        | Some evs' =>
+            let evs'' := if mem_pair (String.append ty (String.append "." cur), callee) calls_without_lock
+                         then filter (fun x => negb (is_lock_event x)) evs' else evs' in
+            Some (trace f ty callee held evs'')
+        end in
+      (* the deferred actions, innermost (last registered) first: "" = an unlock *)
+      let run_deferred :=
+        (fix run (ds : list string) (held : list string) {struct ds} : list tentry * list string :=
+           match ds with
+           | [] => ([], held)
+           | d :: r =>
+               if String.eqb d "" then run r (tl held)
+               else match inline d held with
+                    | None => let '(t, h) := run r held in ((held, (cur, String.append "call:" d)) :: t, h)
+                    | Some (t1, h1) => let '(t2, h2) := run r h1 in ((t1 ++ t2)%list, h2)
+                    end
+           end) in
+      (fix go (evs : list string) (held : list string) (deferred : list string) {struct evs}
+         : list tentry * list string :=
          match evs with
-         | [] => ([], skipn deferred held)
+         | [] => run_deferred deferred held
          | e :: r =>
              if has_prefix "lock:" e then
                let '(t, h) := go r (drop5 e :: held) deferred in ((held, (cur, e)) :: t, h)
              else if has_prefix "unlock:" e then
                let '(t, h) := go r (tl held) deferred in ((held, (cur, e)) :: t, h)
-             else if has_prefix "defer-unlock:" e then go r held (S deferred)
+             else if has_prefix "defer-unlock:" e then go r held ("" :: deferred)
+             else if has_prefix "defer-call:" e then go r held (after_char 58 e :: deferred)
              else if has_prefix "call:" e then
-               match tlookup (String.append ty (String.append "." (drop5 e))) lock_table with
+               match inline (drop5 e) held with
                | None => let '(t, h) := go r held deferred in ((held, (cur, e)) :: t, h)
-               | Some evs' =>
-                   let evs'' := if mem_pair (String.append ty (String.append "." cur), drop5 e) calls_without_lock
-                                then filter (fun x => negb (is_lock_event x)) evs' else evs' in
-                   let '(t1, h1) := trace f ty (drop5 e) held evs'' in
+               | Some (t1, h1) =>
                    let '(t2, h2) := go r h1 deferred in
                    ((t1 ++ t2)%list, h2)
                end
              else let '(t, h) := go r held deferred in ((held, (cur, e)) :: t, h)
-         end) evs held O
+         end) evs held []
   end.
 
 Definition trace_fuel (fuel : nat) (m : string) (evs : list string) : list tentry * list string :=
@@ -324,50 +345,20 @@ Definition qual (t : tentry) : string := String.append (te_in t) (String.append 
 
 Definition no_lock (t : tentry) : bool := match te_held t with [] => true | _ => false end.
 
-(** FINDING (expiry in Get): [get] reads the map under the read lock, RELEASES
-    it, and then calls [expire], which on an expired fact runs [rem] (and the
-    dependency cascade: a search and further removals) with no lock held.
-    Both state types. *)
-Definition unlocked_exceptions : list (string * string) :=
-  [("IndexedState.Get", "SearchForIDs/index:Search");
-   ("IndexedState.Get", "unindexRule/index:RemPatternMap");
-   ("IndexedState.Get", "search/read:IdToFact");
-   ("IndexedState.Get", "rem/read:IdToFact");
-   ("IndexedState.Get", "rem/delete:IdToFact");
-   ("IndexedState.Get", "rem/index:RemIdTerms");
-   ("IndexedState.get", "SearchForIDs/index:Search");
-   ("IndexedState.get", "search/read:IdToFact");
-   ("IndexedState.get", "rem/read:IdToFact");
-   ("IndexedState.get", "unindexRule/index:RemPatternMap");
-   ("IndexedState.get", "rem/delete:IdToFact");
-   ("IndexedState.get", "rem/index:RemIdTerms");
-   ("LinearState.Get", "search/range:Facts");
-   ("LinearState.Get", "rem/read:Facts");
-   ("LinearState.Get", "rem/delete:Facts");
-   ("LinearState.get", "search/range:Facts");
-   ("LinearState.get", "rem/read:Facts");
-   ("LinearState.get", "rem/delete:Facts")].
-
+(** (Before the repair of D52 this check needed a list of exceptions: [get]
+    released the read lock and then ran [expire] -> [rem] with no lock held.
+    Now [expire] only notes the id in a list that has its own mutex, and the
+    removal happens in [purge], under the write lock: no exception is left.) *)
 Definition locked_accesses_ok : bool :=
   forallb (fun me =>
-             forallb (fun t => negb (is_protected (te_ev t)) || negb (no_lock t) ||
-                               mem_pair (fst me, qual t) unlocked_exceptions)
+             forallb (fun t => negb (is_protected (te_ev t)) || negb (no_lock t))
                      (trace_of (fst me) (snd me)))
           top_methods.
-
-(** every listed exception is real (the list is tight) *)
-Definition unlocked_exceptions_real : bool :=
-  forallb (fun x => existsb (fun me => String.eqb (fst me) (fst x) &&
-                                        existsb (fun t => is_protected (te_ev t) && no_lock t &&
-                                                          String.eqb (qual t) (snd x))
-                                                (trace_of (fst me) (snd me)))
-                            top_methods)
-          unlocked_exceptions.
 
 Definition fact_map_accesses_are_locked_statement : Prop :=
   forall m evs, In (m, evs) lock_table -> is_top m = true ->
     forall t, In t (trace_of m evs) -> is_protected (te_ev t) = true ->
-      te_held t <> [] \/ In (m, qual t) unlocked_exceptions.
+      te_held t <> [].
 
 (** every method returns with no lock held, and never acquires the
     (non-reentrant) lock while holding it *)
@@ -413,73 +404,56 @@ Definition writes_something (m : string) (evs : list string) : bool :=
 Definition takes_write_lock (m : string) (evs : list string) : bool :=
   existsb (fun t => String.eqb (te_ev t) "lock:w") (trace_of m evs).
 
-(** FINDING (purge under a read lock): searches and rule look-ups hold only
-    the READ lock while [expire] removes expired facts from the map, the
-    indexes and the storage (several readers may do so at once). *)
-Definition purge_under_read_lock_exceptions : list string :=
-  ["IndexedState.FindCachedRules"; "IndexedState.FindRules"; "IndexedState.Search"; "IndexedState.doFindRules";
-   "LinearState.FindCachedRules"; "LinearState.FindRules"; "LinearState.Search"; "LinearState.doFindRules"].
-(** (and Get purges with no lock at all, see [unlocked_exceptions]) *)
-Definition purge_unlocked_exceptions : list string :=
-  ["IndexedState.Get"; "IndexedState.get"; "LinearState.Get"; "LinearState.get"].
-
+(** (Before the repair of D52: the searches and rule look-ups removed expired
+    facts while holding only the READ lock, and Get with no lock at all; these
+    methods were listed as exceptions.  Now every method that writes takes the
+    write lock - the readers reach their only writes through [purge].) *)
 Definition write_methods_ok : bool :=
-  forallb (fun me => negb (writes_something (fst me) (snd me)) || takes_write_lock (fst me) (snd me) ||
-                     mem_str (fst me) purge_under_read_lock_exceptions ||
-                     mem_str (fst me) purge_unlocked_exceptions) top_methods.
-
-Definition write_exceptions_real : bool :=
-  forallb (fun m => match tlookup m lock_table with
-                    | Some evs => is_top m && writes_something m evs && negb (takes_write_lock m evs)
-                    | None => false
-                    end) (purge_under_read_lock_exceptions ++ purge_unlocked_exceptions).
+  forallb (fun me => negb (writes_something (fst me) (snd me)) || takes_write_lock (fst me) (snd me)) top_methods.
 
 Definition write_methods_take_write_lock_statement : Prop :=
   forall m evs, In (m, evs) lock_table -> is_top m = true ->
-    writes_something m evs = true ->
-    takes_write_lock m evs = true \/ In m purge_under_read_lock_exceptions \/ In m purge_unlocked_exceptions.
+    writes_something m evs = true -> takes_write_lock m evs = true.
 
 (** the finer, per-event form: every mutation of the fact maps and indexes
-    happens with the WRITE lock held, except the purges *)
-Definition read_locked_mutation_exceptions : list (string * string) :=
-  [("IndexedState.FindCachedRules", "unindexRule/index:RemPatternMap");
-   ("IndexedState.FindCachedRules", "rem/delete:IdToFact");
-   ("IndexedState.FindCachedRules", "rem/index:RemIdTerms");
-   ("IndexedState.FindRules", "unindexRule/index:RemPatternMap");
-   ("IndexedState.FindRules", "rem/delete:IdToFact");
-   ("IndexedState.FindRules", "rem/index:RemIdTerms");
-   ("IndexedState.Search", "unindexRule/index:RemPatternMap");
-   ("IndexedState.Search", "rem/delete:IdToFact");
-   ("IndexedState.Search", "rem/index:RemIdTerms");
-   ("IndexedState.doFindRules", "unindexRule/index:RemPatternMap");
-   ("IndexedState.doFindRules", "rem/delete:IdToFact");
-   ("IndexedState.doFindRules", "rem/index:RemIdTerms");
-   ("LinearState.FindCachedRules", "rem/delete:Facts");
-   ("LinearState.FindRules", "rem/delete:Facts");
-   ("LinearState.Search", "rem/delete:Facts");
-   ("LinearState.doFindRules", "rem/delete:Facts")].
-
+    happens with the WRITE lock held - no exception *)
 Definition mutations_ok : bool :=
   forallb (fun me =>
-             forallb (fun t => negb (is_mutation (te_ev t)) || mem_str "w" (te_held t) ||
-                               mem_pair (fst me, qual t) read_locked_mutation_exceptions ||
-                               mem_pair (fst me, qual t) unlocked_exceptions)
+             forallb (fun t => negb (is_mutation (te_ev t)) || mem_str "w" (te_held t))
                      (trace_of (fst me) (snd me)))
           top_methods.
-
-Definition read_locked_mutation_exceptions_real : bool :=
-  forallb (fun x => existsb (fun me => String.eqb (fst me) (fst x) &&
-                                        existsb (fun t => is_mutation (te_ev t) && negb (no_lock t) &&
-                                                          negb (mem_str "w" (te_held t)) &&
-                                                          String.eqb (qual t) (snd x))
-                                                (trace_of (fst me) (snd me)))
-                            top_methods)
-          read_locked_mutation_exceptions.
 
 Definition mutations_hold_write_lock_statement : Prop :=
   forall m evs, In (m, evs) lock_table -> is_top m = true ->
     forall t, In t (trace_of m evs) -> is_mutation (te_ev t) = true ->
-      In "w" (te_held t) \/ In (m, qual t) read_locked_mutation_exceptions \/ In (m, qual t) unlocked_exceptions.
+      In "w" (te_held t).
+
+(** where the removal of the expired items went: [expire] calls nothing and
+    touches nothing any more, and each public reader (and Rem, whose cascade
+    searches) reaches [purge], which takes the WRITE lock while nothing is
+    held (i.e. after the reader has released its own lock: a deferred call
+    runs after the deferred unlock registered after it) *)
+Definition purging_methods : list string :=
+  ["IndexedState.Get"; "IndexedState.Search"; "IndexedState.FindRules"; "IndexedState.FindCachedRules";
+   "IndexedState.Rem"; "LinearState.Get"; "LinearState.Search"; "LinearState.FindRules";
+   "LinearState.FindCachedRules"; "LinearState.Rem"].
+
+Definition is_purge_lock (t : tentry) : bool :=
+  String.eqb (te_in t) "purge" && String.eqb (te_ev t) "lock:w" && no_lock t.
+
+Definition readers_purge_ok : bool :=
+  forallb (fun m => match tlookup m lock_table with
+                    | Some evs => existsb is_purge_lock (trace_of m evs)
+                    | None => false
+                    end) purging_methods &&
+  forallb (fun m => match tlookup m lock_table with Some [] => true | _ => false end)
+          ["IndexedState.expire"; "LinearState.expire"].
+
+Definition readers_purge_under_write_lock_statement : Prop :=
+  (forall m, In m purging_methods ->
+     exists evs t, tlookup m lock_table = Some evs /\ In t (trace_of m evs) /\
+                   te_in t = "purge" /\ te_ev t = "lock:w" /\ te_held t = []) /\
+  tlookup "IndexedState.expire" lock_table = Some [] /\ tlookup "LinearState.expire" lock_table = Some [].
 
 (** ** The two phases of Add *)
 
